@@ -458,6 +458,11 @@ def write_evidence(prop, tier, seed, meta, cov, wall, violations, extra_assumpti
     p = os.path.join(VERIF, "evidence", prop + ".json")
     json.dump(ev, open(p + ".tmp", "w"), indent=1)
     os.replace(p + ".tmp", p)
+    if tier == "thorough":
+        # the quick tier rewrites evidence/<id>.json on every change; the last thorough result is kept too
+        os.makedirs(os.path.join(VERIF, "evidence", "thorough"), exist_ok=True)
+        ev["coverage"] = dict(cov, samples=cov.get("samples", [])[:1])
+        json.dump(ev, open(os.path.join(VERIF, "evidence", "thorough", "%s.seed%s.json" % (prop, seed)), "w"), indent=1)
 
 
 def cmd_check(prop, tier, runs=None, workers=None):
